@@ -220,6 +220,9 @@ class SparseMatrixBasis(MatrixBasis):
             basis = tuple([csr_matrix(b) for b in basis])
         elif type(basis[0]) != csr_matrix:
             raise TypeError(f"MatrixBasis doesn't support type {type(basis[0])}.")
+        else:
+            # keep private copies: the caller's sparse matrices must not be shared
+            basis = tuple(copy.deepcopy(basis))
         self._basis: Tuple[csr_matrix, ...] = basis
         self._dim = basis[0].shape[0]
 
